@@ -406,4 +406,5 @@ func runC18(c *Ctx) {
 		c.Check("C18-R4", "user-stops-queue:"+recv, sp.Pos(), qs != nil && p.reachSet(sp)[qs], recv+".Stop does not stop its notification queue (worker goroutine leaks)")
 	}
 	c.Floor("C18-R4", "production users of ConcurrentQueue", users, 1)
+	checkProducersNeverDrop(c, "C18-R4")
 }
